@@ -46,6 +46,49 @@ def gen(ctx, count):
     return out
 
 
+def gen_large(ctx, count):
+    """more than a thousand states (1025 .. 2100, never a multiple of 1024), exact rows: any block-wise / chunked construction has a
+    last partial block.  Only the non-zero entries are compared (sparse), against the same independent accumulation"""
+    out = []
+    for i in range(count):
+        sub = ctx.rng.randrange(10 ** 9)
+        rng = random.Random(sub)
+        nS = rng.choice([1025, 1030 + rng.randrange(60), 1500 + rng.randrange(40), 2049 + rng.randrange(50)]) if i else 1025 + rng.randrange(1, 40)
+        spec = mdpgen.gen_mdp(rng, family="tab", nS=nS, nA=2, nE=rng.choice([1, 2, 3]), denom=4, dims=(2, 1, 1))
+        out.append({"seed": sub, "spec": spec, "tol": str(F(1, 2 ** 13)), "tol_as_int": False, "kind": "ok", "pre_tols": [], "large": True})
+    return out
+
+
+def oracle_large(c, r):
+    if "error" in r:
+        return f"builder raised {r['error']}: {r.get('message', '')[:200]}"
+    if r.get("error_kind"):
+        return f"ValueError raised although every row sums to one exactly: {r.get('message')}"
+    spec = c["spec"]
+    nS, nA, nE = spec["nS"], spec["nA"], spec["nE"]
+    if r["pshape"] != [nA, nS, nS] or r["rshape"] != [nS, nA]:
+        return f"matrix shapes are {r['pshape']} / {r['rshape']} for {nS} states and {nA} actions"
+    want = {}
+    for s in range(nS):
+        for a in range(nA):
+            for e in range(nE):
+                p = F(spec["prb"][s][a][e])
+                if p:
+                    k = (a, s, spec["nxt"][s][a][e])
+                    want[k] = want.get(k, F(0)) + p
+    got = {tuple(k): v for k, v in zip(r["nz"], solverun.fracs(r["nzv"]))}
+    if got != want:
+        bad = sorted(set(got.items()) ^ set(want.items()))[:1]
+        (a, s, j), _ = bad[0]
+        return (f"{nS} states: transition entry (action {a}, state {s}, successor {j}) is {got.get((a, s, j), 0)}, the events leading there have total probability "
+                f"{want.get((a, s, j), 0)} ({len(set(got.items()) ^ set(want.items()))} entries differ)")
+    for s in range(nS):
+        for a in range(nA):
+            if F(r["R"][s][a]) != sum(F(spec["prb"][s][a][e]) * F(spec["rew"][s][a][e]) for e in range(nE)):
+                return f"{nS} states: reward entry (state {s}, action {a}) differs from the expected immediate reward"
+    return None
+
+
 def expected(c):
     """independent accumulation in Fractions (the property's own definition)"""
     spec = c["spec"]
@@ -132,7 +175,12 @@ def run(ctx, build):
         if "error" not in r:
             items.append(coq_item(c, r, len(items)))
             meta.append(c)
-    # shipped problem at a small size, default tolerance, float32 default precision (structure only)
+    large = gen_large(ctx, 2 if ctx.tier == "quick" else 12)
+    lres = core.run_workers(ctx, [{"kind": "build_matrices", "problem": c["spec"], "tol": solverun.fl(c["tol"]), "sparse": True} for c in large])
+    for c, r in zip(large, lres):
+        why = oracle_large(c, r)
+        if why:
+            viols.append({"key": f"matrix-large:{c['seed']}", "what": why, "input": {"case": c}})
     if build["model_ok"]:
         failing, errs = cases.coq_bools(ctx, "c17", items, imports=IMPORTS, shard=20)
         for e in errs:
@@ -142,7 +190,7 @@ def run(ctx, build):
     nontriv = {solverun.case_id([c["spec"]["nxt"], c["spec"]["rew"], c["spec"]["prb"], c["tol"]]) for c in cs
                if any(len(set(row)) < len(row) for rs in c["spec"]["nxt"] for row in rs)}
     cov = {
-        "evaluations": len(cs), "distinct_nontrivial": len(nontriv), "kinds": kinds,
+        "evaluations": len(cs) + len(large), "problems_with_more_than_1024_states": [c["spec"]["nS"] for c in large], "distinct_nontrivial": len(nontriv), "kinds": kinds,
         "rule": "generated tabular problems (1-3 dimensional vectors, duplicated action rows, single-event problems, scalar / 1-element-array probabilities) with colliding successors; "
                 "rows exact, off by 1/8 (> tolerance) or by 2^-20 (< tolerance 2^-13); non-trivial = at least two events of one (s,a) lead to the same successor",
         "samples": [{"seed": c["seed"], "kind": c["kind"], "nS": c["spec"]["nS"], "nA": c["spec"]["nA"], "nE": c["spec"]["nE"], "prob_as_array": c["spec"]["prob_as_array"]} for c in cs[:6]],
@@ -167,6 +215,10 @@ def replay(ctx, build, data):
     if not inp:
         return {"fails": False, "note": "no concrete input"}
     c = inp["case"]
+    if c.get("large"):
+        r = core.run_workers(ctx, [{"kind": "build_matrices", "problem": c["spec"], "tol": solverun.fl(c["tol"]), "sparse": True}])[0]
+        why = oracle_large(c, r)
+        return {"fails": bool(why), "why": why}
     r = core.run_workers(ctx, [{"kind": "build_matrices", "problem": c["spec"], "tol": (0 if c.get("tol_as_int") else solverun.fl(c["tol"])), "pre_tols": c.get("pre_tols", [])}])[0]
     why = oracle(c, r)
     return {"fails": bool(why), "why": why}
